@@ -23,6 +23,9 @@ def run(ck, ctx):
     ck.rule("R11.3", "ingest by merge: recovered checkpoint entries are installed only by apply_recovered_state (checkpoint first, then "
                      "deltas through the merging apply_remote_delta); no other caller of the plain-insert path exists")
     ck.rule("R11.5", "WAL deltas are appended to the recovered deltas on every path of recover_with_wal")
+    ck.rule("R11.6", "every persisted piece is replayed: the WAL replay visits every file (the per-file loop has no early exit), and every "
+                     "entry of the recovered checkpoint - tombstones included - is stored into the shard's replication state before the "
+                     "deltas are merged onto it")
     ck.nd("equality with the ground-truth merge for all partitions of updates; order independence is delegated to C07")
     for cfg in ctx.configs:
         prog = ctx.prog(cfg)
@@ -31,6 +34,9 @@ def run(ck, ctx):
         _r111(ck, prog, cfg)
         _r112(ck, prog, cfg)
         _r113(ck, prog, cfg)
+        from . import c10
+        c10.file_loop_rule(ck, prog, cfg, "R11.6")
+        _r116(ck, prog, cfg)
 
 
 def _r111(ck, prog, cfg):
@@ -309,3 +315,36 @@ def _r113(ck, prog, cfg):
     m = [(b, t) for b, t in ing.calls() if is_callee(t, r"ReplicatedValue::merge$")]
     ck.check(len(m) >= 1, "R11.3", "ingest-merges" + _tag(cfg), "ShardReplicaState::apply_remote_delta no longer merges with the existing value", ing.where(),
              detail="existing.merge(&delta.value)")
+
+
+def _r116(ck, prog, cfg):
+    """the ApplyRecoveredState arm of the shard actor stores every entry it is handed (no filter on the value)"""
+    run = prog.one("production::replicated_shard_actor::ReplicatedShardActor::run::{closure#0}")
+    names = [v["n"] for v in prog.adts["production::replicated_shard_actor::ReplicatedShardMessage"]["variants"]] \
+        if "production::replicated_shard_actor::ReplicatedShardMessage" in prog.adts else []
+    arm = None
+    for sb in sorted(run.reachable_blocks()):
+        si = switch_info(run, sb)
+        if si and si["kind"] == "discr" and si["ty"].endswith("ReplicatedShardMessage") and names:
+            for v, tg in run.term(sb)["cases"]:
+                if names[int(v)] == "ApplyRecoveredState":
+                    arm = (sb, tg)
+    if arm is None:
+        ck.anchor_lost("R11.6", "ApplyRecoveredState arm of ReplicatedShardActor::run not found")
+        return
+    sb, tg = arm
+    region = {x for x in run.reachable_blocks() if run.dominates(tg, x)}
+    ins = {b for b, t in run.calls() if b in region and is_callee(t, r"HashMap::<std::string::String, replication::state::replicated_value::ReplicatedValue>::insert$")}
+    ck.check(bool(ins), "R11.6", "ApplyRecoveredState:stores" + _tag(cfg), "the arm does not insert the recovered value into replicated_keys", run.where(run.term(sb)["ln"]))
+    if not ins:
+        return
+    skip = lib2.path_avoiding(run, tg, lambda x: x not in region or run.term(x)["k"] in ("return", "yield"), lambda x: x in ins, (), from_succ=False)
+    lines = []
+    for x in skip or []:
+        ln = run.term(x).get("ln")
+        if ln and (not lines or lines[-1] != ln):
+            lines.append(ln)
+    ck.check(skip is None, "R11.6", "ApplyRecoveredState:every-entry-stored" + _tag(cfg),
+             "a recovered checkpoint entry can be dropped without being stored into the replication state (path through lines %s): an older "
+             "update of that key replayed afterwards is then merged against nothing (a deleted key comes back)" % lines[:8],
+             run.where(run.term(sb)["ln"]), detail="insert on every path of the arm")
